@@ -1,24 +1,24 @@
-(** Proofs about VCp.Dispatcher: per-dispatcher accounting invariant, the
-    history of finished launches, and the resource invariant of every CU of
-    the shared pool, for every sequence of environment events. *)
+(** Proofs about VCp.Dispatcher on the small-step system of DispatcherSteps:
+    per-dispatcher accounting invariant, history of finished launches, for
+    every placement algorithm (round-robin, greedy, partition) and every
+    sequence of environment events; then (code level) the resource invariant
+    of every CU of the shared pool. *)
 From Coq Require Import List NArith Bool Arith Lia ZifyN ZifyNat ZifyBool Permutation.
-From VCp Require Import Resource ResourceProofs Dispatcher.
+From VCp Require Import Resource ResourceProofs Dispatcher DispatcherSteps.
 From RecordUpdate Require Import RecordSet.
 Import ListNotations RecordSetNotations.
 Open Scope nat_scope.
 
-(** the work-groups of a launch with their keys, in NextWG order *)
-Fixpoint enum_from (lid idx : N) (ds : list demand) : list (wgkey * demand) :=
-  match ds with
-  | [] => []
-  | dm :: r => ((lid, idx), dm) :: enum_from lid (idx + 1)%N r
-  end.
-Definition grid_of (l : launch) : list (wgkey * demand) := enum_from (lr_id l) 0%N (lr_wgs l).
+Definition pl_kd (p : placement) : kd := (pl_key p, pl_dem p).
+Definition kd_of_sent (mp : mapreq * placement) : kd := pl_kd (snd mp).
 
-Definition opt_list {A} (o : option A) : list A := match o with Some x => [x] | None => [] end.
+(** round-robin and greedy hand the work-groups out in grid order; the
+    partition algorithm in some order *)
+Definition gridrel (alg : algo) (g l : list kd) : Prop :=
+  if is_partition alg then Permutation g l else g = l.
 
-Definition pl_kd (p : placement) : wgkey * demand := (pl_key p, pl_dem p).
-Definition kd_of_sent (mp : mapreq * placement) : wgkey * demand := pl_kd (snd mp).
+Lemma gridrel_perm : forall alg g l, gridrel alg g l -> Permutation g l.
+Proof. intros alg g l H. unfold gridrel in H. destruct (is_partition alg); subst; auto. Qed.
 
 (** a placement records a reservation that succeeded on the CU as it was *)
 Definition pl_ok (p : placement) : Prop :=
@@ -30,171 +30,32 @@ Definition mr_ok (mp : mapreq * placement) : Prop :=
 
 Definition cur_ok (d : disp) : Prop :=
   match cur_wg d, g_cur d with
-  | Some w, Some p => dl_cu w = pl_cu p /\ dl_key w = pl_key p /\ dl_locs w = pl_locs p /\ pl_ok p /\ a_cur d = None
+  | Some w, Some p => dl_cu w = pl_cu p /\ dl_key w = pl_key p /\ dl_locs w = pl_locs p /\ pl_ok p
   | None, None => True
   | _, _ => False
   end.
 
-Definition DInv (d : disp) : Prop :=
+(** work-groups of the current launch that have been placed *)
+Definition placed (d : disp) : list kd :=
+  map kd_of_sent (g_sent d) ++ map pl_kd (opt_list (g_cur d)).
+
+Definition DInv (alg : algo) (d : disp) : Prop :=
   cur_ok d /\ Forall mr_ok (g_sent d) /\
   (n_comp d + N.of_nat (length (inflight d)) = n_disp d)%N /\
   match dispatching d with
-  | None => cur_wg d = None /\ a_cur d = None /\ inflight d = [] /\ g_sent d = []
+  | None => cur_wg d = None /\ inflight d = [] /\ g_sent d = [] /\ alg_pending alg d = []
   | Some l =>
-    grid_of l = map kd_of_sent (g_sent d) ++ map pl_kd (opt_list (g_cur d)) ++ opt_list (a_cur d)
-                ++ enum_from (a_lid d) (a_idx d) (a_rest d) /\
+    gridrel alg (grid_of l) (placed d ++ alg_pending alg d) /\
     n_disp d = N.of_nat (length (g_sent d)) /\
     a_ndisp d = N.of_nat (length (g_sent d) + length (opt_list (g_cur d))) /\
     a_numwg d = N.of_nat (length (lr_wgs l))
   end.
 
 (** what is recorded when a LaunchKernelRsp is sent *)
-Definition fin_ok (f : finished) : Prop :=
-  map kd_of_sent (f_sent f) = grid_of (f_launch f) /\
+Definition fin_ok (alg : algo) (f : finished) : Prop :=
+  gridrel alg (grid_of (f_launch f)) (map kd_of_sent (f_sent f)) /\
   Forall mr_ok (f_sent f) /\
   f_ndisp f = N.of_nat (length (lr_wgs (f_launch f))) /\ f_ncomp f = f_ndisp f.
-
-(** changes a dispatcher may make to the shared logs *)
-Definition sh_same (s s' : shared) : Prop :=
-  g_hist s' = g_hist s /\ drv_out s' = drv_out s.
-
-Lemma sh_same_refl : forall s, sh_same s s. Proof. split; auto. Qed.
-Lemma sh_same_trans : forall a b c, sh_same a b -> sh_same b c -> sh_same a c.
-Proof. intros a b c [? ?] [? ?]. split; congruence. Qed.
-
-Lemma enum_from_length : forall ds lid idx, length (enum_from lid idx ds) = length ds.
-Proof. induction ds; intros; simpl; auto. Qed.
-
-(** ** roundRobinAlgorithm.Next *)
-
-Lemma rr_scan_ok : forall fuel i p start k dm p' pl,
-  rr_scan fuel i p start k dm = Some (p', Some pl) ->
-  pl_key pl = k /\ pl_dem pl = dm /\ pl_ok pl.
-Proof.
-  induction fuel; intros i p start k dm p' pl H; simpl in H; [discriminate|].
-  destruct (reserve _ k dm) as [|c' [locs|]] eqn:E; [discriminate| |eauto].
-  inversion H; subst. simpl. repeat split; auto. exists c'. simpl. exact E.
-Qed.
-
-Lemma dispatch_next_inv : forall c s d s' d' pr,
-  DInv d -> dispatching d <> None -> dispatch_next c s d = (s', d', pr) -> crashed s' = false ->
-  DInv d' /\ dispatching d' = dispatching d /\ sh_same s s'.
-Proof.
-  intros c s d s' d' pr HD Hdisp H Hc. unfold dispatch_next in H.
-  destruct HD as [Hcur [Hsent [Hcnt Hd]]].
-  destruct (dispatching d) as [l|] eqn:El; [clear Hdisp|congruence].
-  destruct Hd as [Hgrid [Hnd [Had Hnw]]].
-  (* first stage: obtain a valid currWG *)
-  assert (Hstage : forall s1 d1,
-    (match cur_wg d with
-     | Some _ => Some (s, d)
-     | None =>
-       if negb (has_next d) then None else
-       match rr_next (c_alg c) (pool s) d with
-       | None => Some (crash s, d)
-       | Some (p', d', None) => Some (s <| pool := p' |>, d')
-       | Some (p', d', Some pl) =>
-         Some (s <| pool := p' |>,
-               d' <| cur_wg := Some (mkDloc (pl_cu pl) (pl_key pl) (pl_locs pl)) |> <| g_cur := Some pl |>)
-       end
-     end) = Some (s1, d1) -> crashed s1 = false ->
-    DInv d1 /\ dispatching d1 = Some l /\ sh_same s s1).
-  { intros s1 d1 Hst Hc1. destruct (cur_wg d) as [w|] eqn:Ew.
-    - inversion Hst; subst. split; [|split; [auto|apply sh_same_refl]].
-      unfold DInv. rewrite El. repeat split; auto.
-    - destruct (negb (has_next d)); [discriminate|].
-      unfold rr_next in Hst.
-      unfold cur_ok in Hcur. rewrite Ew in Hcur. destruct (g_cur d) eqn:Eg; [tauto|].
-      simpl in Hgrid, Had.
-      (* fetch *)
-      set (d1opt := match a_cur d with
-                    | Some _ => Some d
-                    | None => match a_rest d with
-                              | [] => None
-                              | dm :: r => Some (d <| a_cur := Some ((a_lid d, a_idx d), dm) |> <| a_rest := r |>
-                                                   <| a_idx := (a_idx d + 1)%N |>)
-                              end
-                    end) in *.
-      assert (Hf : forall df, d1opt = Some df ->
-                exists k dm, a_cur df = Some (k, dm) /\
-                  grid_of l = map kd_of_sent (g_sent df) ++ (k, dm) :: enum_from (a_lid df) (a_idx df) (a_rest df) /\
-                  g_sent df = g_sent d /\ inflight df = inflight d /\ n_comp df = n_comp d /\ n_disp df = n_disp d /\
-                  a_ndisp df = a_ndisp d /\ a_numwg df = a_numwg d /\ dispatching df = Some l /\
-                  cur_wg df = None /\ g_cur df = None).
-      { intros df Edf. unfold d1opt in Edf. destruct (a_cur d) as [[k dm]|] eqn:Ea.
-        - inversion Edf; subst df. exists k, dm. simpl in Hgrid. repeat split; auto.
-        - destruct (a_rest d) as [|dm r] eqn:Er; [discriminate|]. inversion Edf; subst df; clear Edf.
-          exists (a_lid d, a_idx d), dm. simpl. simpl in Hgrid. repeat split; auto. }
-      destruct d1opt as [df|] eqn:Edf.
-      2: { inversion Hst; subst. simpl in Hc1. discriminate. }
-      destruct (Hf df eq_refl) as [k [dm [Ha [Hg [Hs1 [Hi1 [Hc2 [Hn1 [Hn2 [Hn3 [Hdd [Hcw Hgc]]]]]]]]]]]].
-      rewrite Ha in Hst.
-      destruct (rr_scan (length (pool s)) 0 (pool s) _ k dm) as [[p' [pl|]]|] eqn:Esc.
-      + inversion Hst; subst s1 d1; clear Hst.
-        destruct (rr_scan_ok _ _ _ _ _ _ _ _ Esc) as [Hk [Hdm Hpl]].
-        split; [|split; [simpl; auto|split; reflexivity]].
-        unfold DInv, cur_ok. simpl. rewrite Hdd, Hs1, Hi1, Hc2, Hn1, Hn2, Hn3.
-        split; [repeat split; auto|]. split; auto. split; auto.
-        split; [|split; [auto|split; [lia|auto]]].
-        rewrite Hg, Hs1. unfold pl_kd. rewrite Hk, Hdm. reflexivity.
-      + inversion Hst; subst s1 d1; clear Hst.
-        split; [|split; [auto|split; reflexivity]].
-        unfold DInv, cur_ok. rewrite Hcw, Hgc, Hdd, Hs1, Hi1, Hc2, Hn1, Hn2, Hn3, Ha.
-        split; auto. split; auto. split; auto. simpl.
-        split; [rewrite Hg, Hs1; reflexivity|]. split; auto.
-      + inversion Hst; subst. simpl in Hc1. discriminate. }
-  match type of H with (match ?X with _ => _ end) = _ => destruct X as [[s1 d1]|] eqn:Est end.
-  2: { inversion H; subst. split; [|split; [auto|apply sh_same_refl]].
-       unfold DInv. rewrite El. repeat split; auto. }
-  destruct (crashed s1) eqn:Ec1.
-  { inversion H; subst. congruence. }
-  destruct (Hstage s1 d1 eq_refl Ec1) as [HD1 [Hdisp1 Hsame1]].
-  destruct (cur_wg d1) as [w|] eqn:Ew1.
-  2: { inversion H; subst. auto. }
-  destruct (g_cur d1) as [pl|] eqn:Eg1.
-  2: { inversion H; subst. auto. }
-  destruct (length (cu_out s1) <? c_cap c).
-  2: { inversion H; subst. auto. }
-  destruct HD1 as [Hcur1 [Hsent1 [Hcnt1 Hd1]]]. rewrite Hdisp1 in Hd1.
-  destruct Hd1 as [Hgrid1 [Hnd1 [Had1 Hnw1]]].
-  unfold cur_ok in Hcur1. rewrite Ew1, Eg1 in Hcur1. destruct Hcur1 as [Hc_cu [Hc_key [Hc_locs [Hc_pl Hc_a]]]].
-  rewrite Eg1 in Hgrid1, Had1. simpl in Hgrid1, Had1. rewrite Hc_a in Hgrid1. simpl in Hgrid1.
-  assert (Hfinal : forall cl,
-    DInv (d1 <| cur_wg := None |> <| g_cur := None |> <| n_disp := (n_disp d1 + 1)%N |>
-             <| inflight := (next_id s1, w) :: inflight d1 |>
-             <| g_sent := g_sent d1 ++ [(mkMapReq (next_id s1) (dl_cu w) (dl_key w) (dl_locs w), pl)] |>
-             <| cycle_left := cl |>)).
-  { intros cl. unfold DInv, cur_ok. simpl. rewrite Hdisp1, Hc_a.
-    split; auto. split.
-    { apply Forall_app. split; auto. constructor; auto. unfold mr_ok; simpl. auto. }
-    split; [lia|].
-    split; [rewrite map_app; simpl; rewrite <- app_assoc; simpl; exact Hgrid1|].
-    rewrite app_length; simpl. split; [lia|]. split; [lia|auto]. }
-  destruct (16 <? length (dl_locs w)).
-  - inversion H; subst. simpl in Hc. discriminate.
-  - inversion H; subst s' d' pr; clear H. split; [apply Hfinal|].
-    split; [simpl; auto|]. destruct Hsame1 as [? ?]. split; simpl; auto.
-Qed.
-
-Lemma dispatch_loop_inv : forall fuel c s d s' d' pr,
-  DInv d -> dispatching d <> None -> dispatch_loop fuel c s d = (s', d', pr) -> crashed s' = false ->
-  DInv d' /\ dispatching d' = dispatching d /\ sh_same s s'.
-Proof.
-  induction fuel; intros c s d s' d' pr HD Hdisp H Hc; simpl in H.
-  - inversion H; subst. split; auto. split; auto. apply sh_same_refl.
-  - destruct (dispatch_next c s d) as [[s1 d1] p1] eqn:E1.
-    destruct (negb p1 || (0 <? cycle_left d1)%N || crashed s1) eqn:Eb.
-    + inversion H; subst. eapply dispatch_next_inv; eauto.
-    + destruct (dispatch_loop fuel c s1 d1) as [[s2 d2] p2] eqn:E2.
-      inversion H; subst; clear H.
-      apply orb_false_iff in Eb. destruct Eb as [_ Ec1].
-      destruct (dispatch_next_inv _ _ _ _ _ _ HD Hdisp E1 Ec1) as [HD1 [Hd1 Hs1]].
-      assert (Hdisp1 : dispatching d1 <> None) by congruence.
-      destruct (IHfuel _ _ _ _ _ _ HD1 Hdisp1 E2 Hc) as [HD2 [Hd2 Hs2]].
-      split; auto. split; [congruence|eapply sh_same_trans; eauto].
-Qed.
-
-(** ** completion messages *)
 
 Lemma remove_id_length : forall id l w, lookup_id id l = Some w -> S (length (remove_id id l)) = length l.
 Proof.
@@ -202,250 +63,248 @@ Proof.
   destruct (i =? id)%N; [reflexivity|]. simpl. rewrite (IH w H). reflexivity.
 Qed.
 
-Lemma complete_ids_inv : forall c ids s d s' d',
-  DInv d -> complete_ids c ids s d = (s', d') -> crashed s' = false ->
-  DInv d' /\ dispatching d' = dispatching d /\ sh_same s s'.
+Lemma kernel_completed_facts : forall alg d l,
+  DInv alg d -> dispatching d = Some l -> kernel_completed d = true ->
+  gridrel alg (grid_of l) (map kd_of_sent (g_sent d)) /\ n_disp d = N.of_nat (length (lr_wgs l)) /\
+  n_comp d = n_disp d /\ inflight d = [] /\ cur_wg d = None /\ g_cur d = None /\ alg_pending alg d = [].
 Proof.
-  induction ids as [|id r IH]; intros s d s' d' HD H Hc; simpl in H.
-  - inversion H; subst. split; auto. split; auto. apply sh_same_refl.
-  - destruct (crashed s) eqn:Ecs; [inversion H; subst; congruence|].
-    destruct (lookup_id id (inflight d)) as [w|] eqn:El.
-    2: { inversion H; subst. simpl in Hc. discriminate. }
-    destruct (free _ _) as [c'|] eqn:Ef.
-    2: { inversion H; subst. simpl in Hc. discriminate. }
-    match type of H with complete_ids c r ?S ?D = _ =>
-      assert (HD1 : DInv D /\ dispatching D = dispatching d) end.
-    { destruct HD as [Hcur [Hsent [Hcnt Hd]]].
-      pose proof (remove_id_length _ _ _ El) as Hlen.
-      assert (Hbase : forall cl,
-        DInv (d <| inflight := remove_id id (inflight d) |> <| n_comp := (n_comp d + 1)%N |> <| cycle_left := cl |>)).
-      { intros cl. unfold DInv, cur_ok in *. simpl. split; auto. split; auto. split; [lia|].
-        destruct (dispatching d); auto.
-        destruct Hd as [? [? [Hi ?]]]. rewrite Hi in El. simpl in El. discriminate. }
-      simpl. destruct (_ =? _)%N; simpl.
-      - split; [apply Hbase|reflexivity].
-      - split; [|reflexivity]. specialize (Hbase (cycle_left d)).
-        unfold DInv, cur_ok in *. simpl in *. exact Hbase. }
-    destruct HD1 as [HD1 Hdisp1].
-    destruct (IH _ _ _ _ HD1 H Hc) as [HD2 [Hd2 [Hh Ho]]].
-    split; auto. split; [congruence|]. split; simpl in *; auto.
-Qed.
-
-Lemma process_msgs_inv : forall fuel c s d s' d' pr,
-  DInv d -> process_msgs fuel c s d = (s', d', pr) -> crashed s' = false ->
-  DInv d' /\ dispatching d' = dispatching d /\ sh_same s s'.
-Proof.
-  induction fuel; intros c s d s' d' pr HD H Hc; simpl in H.
-  - inversion H; subst. split; auto. split; auto. apply sh_same_refl.
-  - destruct (cu_in s) as [|ids rest].
-    { inversion H; subst. split; auto. split; auto. apply sh_same_refl. }
-    destruct (filter (known d) ids) as [|m0 mine].
-    { inversion H; subst. split; auto. split; auto. apply sh_same_refl. }
-    destruct (complete_ids c (m0 :: mine) s d) as [s1 d1] eqn:E1.
-    destruct (crashed s1) eqn:Ec1.
-    { inversion H; subst. congruence. }
-    destruct (complete_ids_inv _ _ _ _ _ _ HD E1 Ec1) as [HD1 [Hd1 Hs1]].
-    destruct (filter (fun id => negb (known d id)) ids) as [|o0 others].
-    + destruct (process_msgs fuel c (s1 <| cu_in := rest |>) d1) as [[s3 d3] p3] eqn:E3.
-      inversion H; subst; clear H.
-      destruct (IHfuel _ _ _ _ _ _ HD1 E3 Hc) as [HD3 [Hd3 Hs3]].
-      split; auto. split; [congruence|].
-      destruct Hs1 as [? ?], Hs3 as [? ?]. simpl in *. split; congruence.
-    + inversion H; subst; clear H. split; [auto|]. split; [auto|].
-      destruct Hs1 as [? ?]. split; simpl; auto.
-Qed.
-
-(** ** one dispatcher tick *)
-
-Definition tick_effect (s : shared) (d : disp) (s' : shared) (d' : disp) : Prop :=
-  (sh_same s s' /\ dispatching d' = dispatching d) \/
-  (exists l f, dispatching d = Some l /\ dispatching d' = None /\ f_launch f = l /\ fin_ok f /\
-               g_hist s' = g_hist s ++ [f] /\ drv_out s' = drv_out s ++ [lr_id l]).
-
-Lemma kernel_completed_facts : forall d l,
-  DInv d -> dispatching d = Some l -> kernel_completed d = true ->
-  map kd_of_sent (g_sent d) = grid_of l /\ n_disp d = N.of_nat (length (lr_wgs l)) /\
-  n_comp d = n_disp d /\ inflight d = [] /\ cur_wg d = None /\ a_cur d = None.
-Proof.
-  intros d l [Hcur [Hsent [Hcnt Hd]]] El Hk. rewrite El in Hd. destruct Hd as [Hg [Hnd [Had Hnw]]].
+  intros alg d l [Hcur [Hsent [Hcnt Hd]]] El Hk. rewrite El in Hd. destruct Hd as [Hg [Hnd [Had Hnw]]].
   unfold kernel_completed in Hk. destruct (cur_wg d) eqn:Ew; [discriminate|].
   unfold cur_ok in Hcur. rewrite Ew in Hcur. destruct (g_cur d) eqn:Eg; [tauto|].
   apply andb_true_iff in Hk. destruct Hk as [Hn Hc]. unfold has_next in Hn.
   apply negb_true_iff, N.ltb_ge in Hn. apply negb_true_iff, N.ltb_ge in Hc.
-  simpl in *.
+  unfold placed in Hg. rewrite Eg in Hg. simpl in Hg, Had. rewrite app_nil_r in Hg.
   assert (Hlen : length (grid_of l) = length (lr_wgs l)) by apply enum_from_length.
-  rewrite Hg in Hlen. rewrite !app_length, map_length, enum_from_length in Hlen.
-  assert (Hge : length (lr_wgs l) <= length (g_sent d)) by lia.
-  assert (Ha : a_cur d = None) by (destruct (a_cur d); simpl in Hlen; [lia|reflexivity]).
-  rewrite Ha in *. simpl in Hlen.
-  assert (Hr : a_rest d = []) by (destruct (a_rest d); simpl in Hlen; [reflexivity|lia]).
-  rewrite Hr in Hg. simpl in Hg. rewrite app_nil_r in Hg.
+  rewrite (Permutation_length (gridrel_perm _ _ _ Hg)) in Hlen. rewrite app_length, map_length in Hlen.
+  assert (Hp : alg_pending alg d = []) by (destruct (alg_pending alg d); [reflexivity|simpl in Hlen; lia]).
+  rewrite Hp, app_nil_r in Hg.
   assert (Hi : inflight d = []) by (destruct (inflight d); [reflexivity|simpl in Hcnt; lia]).
   rewrite Hi in Hcnt. simpl in Hcnt.
+  rewrite Hp in Hlen. simpl in Hlen.
   repeat split; auto; lia.
 Qed.
 
-Lemma disp_tick_inv : forall c s d s' d' pr,
-  DInv d -> disp_tick c s d = (s', d', pr) -> crashed s' = false ->
-  DInv d' /\ tick_effect s d s' d'.
+(** ** one step of one dispatcher *)
+
+Lemma dstep_DInv : forall c x y, dstep c x y -> DInv (c_alg c) (snd x) -> DInv (c_alg c) (snd y).
 Proof.
-  intros c s d s' d' pr HD H Hc. unfold disp_tick in H.
-  destruct (crashed s) eqn:Ecs.
-  { inversion H; subst. split; auto. left. split; auto. apply sh_same_refl. }
-  destruct (0 <? cycle_left d)%N.
-  { inversion H; subst. split.
-    - unfold DInv, cur_ok in *. simpl. exact HD.
-    - left. split; [apply sh_same_refl|reflexivity]. }
-  destruct (match dispatching d with
-            | Some l => if kernel_completed d then complete_kernel c s d l else dispatch_loop 8 c s d
-            | None => (s, d, false)
-            end) as [[s1 d1] p1] eqn:E1.
-  assert (Hs1 : crashed s1 = false -> DInv d1 /\ tick_effect s d s1 d1).
-  { intros Hc1. destruct (dispatching d) as [l|] eqn:El.
-    - destruct (kernel_completed d) eqn:Ek.
-      + unfold complete_kernel in E1. destruct (length (drv_out s) <? c_cap c).
-        * inversion E1; subst s1 d1 p1; clear E1.
-          destruct (kernel_completed_facts _ _ HD El Ek) as [Hg [Hnd [Hnc [Hi [Hw Ha]]]]].
-          destruct HD as [Hcur [Hsent [Hcnt Hd]]].
-          split.
-          -- unfold DInv, cur_ok in *. simpl. rewrite Hw in *. split; auto. split; [constructor|].
-             split; auto.
-          -- right. exists l, (mkFin l (g_sent d) (n_disp d) (n_comp d)). simpl.
-             repeat split; auto.
-        * inversion E1; subst. split; auto. left. split; [apply sh_same_refl|reflexivity].
-      + assert (Hne : dispatching d <> None) by congruence.
-        destruct (dispatch_loop_inv _ _ _ _ _ _ _ HD Hne E1 Hc1) as [? [? ?]].
-        split; auto. left. split; auto.
-    - inversion E1; subst. split; auto. left. split; [apply sh_same_refl|auto]. }
-  destruct (crashed s1) eqn:Ec1.
-  { inversion H; subst. congruence. }
-  destruct (Hs1 eq_refl) as [HD1 Heff1].
-  destruct (process_msgs 8 c s1 d1) as [[s2 d2] p2] eqn:E2.
-  inversion H; subst; clear H.
-  destruct (process_msgs_inv _ _ _ _ _ _ _ HD1 E2 Hc) as [HD2 [Hd2 [Hh2 Ho2]]].
-  split; auto.
-  destruct Heff1 as [[[Hh1 Ho1] Hd1]|[l [f [H1 [H2 [H3 [H4 [H5 H6]]]]]]]].
-  - left. split; [split; unfold sh_same; congruence|congruence].
-  - right. exists l, f. split; [auto|]. split; [congruence|]. split; [auto|]. split; [auto|].
-    split; congruence.
+  intros c x y H HD. destruct H; simpl in *.
+  - (* internal *)
+    destruct (core_fields _ _ H) as [E1 [E2 [E3 [E4 [E5 [E6 [E7 [E8 [E9 [E10 [E11 [E12 E13]]]]]]]]]]]].
+    unfold DInv, cur_ok, placed in *. rewrite E1, E2, E4, E5, E6, E9, E10, E12, E13, H0. exact HD.
+  - exact HD.
+  - (* place *)
+    destruct (core_fields _ _ H4) as [E1 [E2 [E3 [E4 [E5 [E6 [E7 [E8 [E9 [E10 [E11 [E12 E13]]]]]]]]]]]].
+    simpl in *. destruct HD as [Hcur [Hsent [Hcnt Hd]]].
+    unfold cur_ok in Hcur. rewrite H in Hcur. destruct (g_cur d) eqn:Eg; [tauto|].
+    destruct (dispatching d) as [l|] eqn:El; [|congruence]. destruct Hd as [Hg [Hnd [Had Hnw]]].
+    unfold DInv, cur_ok, placed in *. rewrite E1, E2, E4, E5, E6, E9, E10, E12, E13. simpl.
+    split; [repeat split; auto; exists cu'; simpl; auto|]. split; auto. split; auto.
+    rewrite Eg in *. simpl in *. rewrite app_nil_r in Hg.
+    split; [|split; [auto|split; [lia|auto]]].
+    unfold gridrel in *. destruct (is_partition (c_alg c)) eqn:Ep.
+    + rewrite Hg. rewrite <- app_assoc. apply Permutation_app_head. simpl. exact H5.
+    + rewrite Hg, (H6 eq_refl), <- app_assoc. reflexivity.
+  - (* send *)
+    destruct HD as [Hcur [Hsent [Hcnt Hd]]].
+    unfold cur_ok in Hcur. rewrite H, H0 in Hcur. destruct Hcur as [Hc1 [Hc2 [Hc3 Hc4]]].
+    unfold DInv, cur_ok, placed, send_d in *. simpl.
+    split; auto. split.
+    { apply Forall_app. split; auto. constructor; auto. unfold mr_ok; simpl. auto. }
+    split; [lia|].
+    destruct (dispatching d) as [l|].
+    + destruct Hd as [Hg [Hnd [Had Hnw]]]. rewrite H0 in Hg, Had. simpl in *.
+      split; [rewrite map_app, app_nil_r; simpl; rewrite <- app_assoc in *; simpl in *; exact Hg|].
+      rewrite app_length; simpl. split; [lia|]. split; [lia|auto].
+    + destruct Hd as [Hw _]. congruence.
+  - (* complete *)
+    destruct HD as [Hcur [Hsent [Hcnt Hd]]].
+    pose proof (remove_id_length _ _ _ H1) as Hlen.
+    assert (Hbase : forall cl,
+      DInv (c_alg c) (d <| inflight := remove_id id (inflight d) |> <| n_comp := (n_comp d + 1)%N |> <| cycle_left := cl |>)).
+    { intros cl. unfold DInv, cur_ok, placed in *. simpl. split; auto. split; auto. split; [lia|].
+      destruct (dispatching d); auto.
+      destruct Hd as [? [Hi ?]]. rewrite Hi in H1. simpl in H1. discriminate. }
+    unfold complete_d. simpl. destruct (_ =? _)%N.
+    + apply Hbase.
+    + specialize (Hbase (cycle_left d)). unfold DInv, cur_ok, placed in *. simpl in *. exact Hbase.
+  - (* response *)
+    destruct (kernel_completed_facts _ _ _ HD H H0) as [Hg [Hnd [Hnc [Hi [Hw [Hgc Hp]]]]]].
+    destruct HD as [Hcur [Hsent [Hcnt Hd]]].
+    unfold DInv, cur_ok, placed in *. simpl. rewrite Hw, Hgc, Hi in *. simpl.
+    split; auto. split; [constructor|]. split; [lia|]. auto.
+  - (* countdown *)
+    unfold DInv, cur_ok, placed in *. simpl. exact HD.
 Qed.
 
-(** ** the whole command processor *)
+(** effect of a step on the shared logs *)
+Lemma dstep_effect : forall c x y, dstep c x y -> DInv (c_alg c) (snd x) ->
+  (g_hist (fst y) = g_hist (fst x) /\ drv_out (fst y) = drv_out (fst x) /\
+   dispatching (snd y) = dispatching (snd x)) \/
+  (exists l f, dispatching (snd x) = Some l /\ dispatching (snd y) = None /\ f_launch f = l /\
+               fin_ok (c_alg c) f /\ g_hist (fst y) = g_hist (fst x) ++ [f] /\
+               drv_out (fst y) = drv_out (fst x) ++ [lr_id l]).
+Proof.
+  intros c x y H HD. destruct H; simpl in *; try (left; repeat split; auto; fail).
+  - left. destruct (core_fields _ _ H) as [E1 _]. auto.
+  - left. destruct (core_fields _ _ H4) as [E1 _]. simpl in E1. auto.
+  - left. repeat split; auto. unfold complete_d. destruct (_ =? _)%N; reflexivity.
+  - right. destruct (kernel_completed_facts _ _ _ HD H H0) as [Hg [Hnd [Hnc [Hi [Hw [Hgc Hp]]]]]].
+    destruct HD as [_ [Hsent _]].
+    exists l, (mkFin l (g_sent d) (n_disp d) (n_comp d)). simpl. repeat split; auto.
+Qed.
+
+(** ** the command processor *)
 
 Definition running (ds : list disp) : list launch := flat_map (fun d => opt_list (dispatching d)) ds.
 
-Lemma tick_disps_inv : forall c ds s s' ds' pr,
-  Forall DInv ds -> tick_disps c s ds = (s', ds', pr) -> crashed s' = false ->
-  Forall DInv ds' /\
-  exists fs, Forall fin_ok fs /\ g_hist s' = g_hist s ++ fs /\
-             drv_out s' = drv_out s ++ map (fun f => lr_id (f_launch f)) fs /\
-             Permutation (running ds) (map f_launch fs ++ running ds').
-Proof.
-  induction ds as [|d r IH]; intros s s' ds' pr HD H Hc; simpl in H.
-  - inversion H; subst. split; auto. exists []. simpl. rewrite !app_nil_r. repeat split; auto.
-  - destruct (disp_tick c s d) as [[s1 d1] p1] eqn:E1.
-    destruct (tick_disps c s1 r) as [[s2 r2] p2] eqn:E2.
-    inversion H; subst; clear H. inversion HD; subst.
-    assert (Hc1 : crashed s1 = false).
-    { destruct (crashed s1) eqn:Ec1; auto. exfalso.
-      clear - E2 Ec1 Hc. revert s1 s' r2 p2 E2 Ec1 Hc.
-      induction r as [|d0 r IHr]; intros; simpl in E2.
-      - inversion E2; subst. congruence.
-      - unfold disp_tick in E2 at 1. rewrite Ec1 in E2.
-        destruct (tick_disps c s1 r) as [[s3 r3] p3] eqn:E3. inversion E2; subst.
-        eapply IHr; eauto. }
-    destruct (disp_tick_inv _ _ _ _ _ _ H1 E1 Hc1) as [HD1 Heff].
-    destruct (IH _ _ _ _ H2 E2 Hc) as [HDr [fs [Hfs [Hh [Ho Hp]]]]].
-    split; [constructor; auto|].
-    destruct Heff as [[[Hh1 Ho1] Hd1]|[l [f [Hl1 [Hl2 [Hl3 [Hl4 [Hl5 Hl6]]]]]]]].
-    + exists fs. split; auto. split; [congruence|]. split; [congruence|].
-      unfold running in *. simpl. rewrite Hd1.
-      rewrite Hp. apply Permutation_app_swap_app.
-    + exists (f :: fs). split; [constructor; auto|].
-      split; [rewrite Hh, Hl5, <- app_assoc; reflexivity|].
-      split; [rewrite Ho, Hl6, <- app_assoc; simpl; rewrite Hl3; reflexivity|].
-      unfold running in *. simpl. rewrite Hl1, Hl2, Hl3. simpl. constructor. exact Hp.
-Qed.
-
-Lemma start_dispatching_inv : forall c d l, DInv d -> dispatching d = None -> DInv (start_dispatching c d l).
-Proof.
-  intros c d l [Hcur [Hsent [Hcnt Hd]]] El. rewrite El in Hd. destruct Hd as [Hw [Ha [Hi Hs]]].
-  unfold cur_ok in Hcur. rewrite Hw in Hcur. destruct (g_cur d) eqn:Eg; [tauto|].
-  unfold DInv, cur_ok, start_dispatching. simpl. rewrite Hw, Eg, Ha, Hi. simpl.
-  split; auto. split; [constructor|]. split; [lia|]. repeat split; auto.
-Qed.
-
-Lemma start_on_first_idle_inv : forall c ds l ds',
-  Forall DInv ds -> start_on_first_idle c ds l = Some ds' ->
-  Forall DInv ds' /\ Permutation (l :: running ds) (running ds').
-Proof.
-  induction ds as [|d r IH]; intros l ds' HD H; simpl in H; [discriminate|].
-  inversion HD as [|? ? HDd HDr0]; subst.
-  destruct (dispatching d) as [l0|] eqn:El.
-  - destruct (start_on_first_idle c r l) as [r'|] eqn:Er; [|discriminate]. inversion H; subst.
-    destruct (IH _ _ HDr0 Er) as [HDr Hp]. split; [constructor; auto|].
-    unfold running in *. simpl. rewrite El. simpl. rewrite perm_swap. constructor. exact Hp.
-  - inversion H; subst. split; [constructor; auto; apply start_dispatching_inv; auto|].
-    unfold running. simpl. rewrite El. simpl. reflexivity.
-Qed.
+Lemma running_app : forall a b, running (a ++ b) = running a ++ running b.
+Proof. intros. unfold running. apply flat_map_app. Qed.
 
 Record CPInv (s : cp) : Prop := mkCPInv {
-  ci_disps : Forall DInv (disps s);
-  ci_hist : Forall fin_ok (g_hist (sh s));
+  ci_disps : Forall (DInv (c_alg (cfg s))) (disps s);
+  ci_hist : Forall (fin_ok (c_alg (cfg s))) (g_hist (sh s));
   ci_started : Permutation (g_started s) (map f_launch (g_hist (sh s)) ++ running (disps s));
   ci_rsps : g_rretr s ++ drv_out (sh s) = map (fun f => lr_id (f_launch f)) (g_hist (sh s))
 }.
 
-Lemma handle_launch_inv : forall s s' p, CPInv s -> handle_launch s = (s', p) -> CPInv s' /\ sh s' = sh s.
+Lemma flat_map_map_S : forall A (f : nat -> list A) l, flat_map f (map S l) = flat_map (fun i => f (S i)) l.
+Proof. induction l; simpl; auto. rewrite IHl. reflexivity. Qed.
+
+Lemma skipn_skipn' : forall A b a (l : list A), skipn a (skipn b l) = skipn (b + a) l.
 Proof.
-  intros s s' p HI H. unfold handle_launch in H.
-  destruct (drv_in s) as [|l rest]; [inversion H; subst; auto|].
-  destruct (start_on_first_idle (cfg s) (disps s) l) as [ds|] eqn:E; [|inversion H; subst; auto].
-  inversion H; subst; clear H. destruct HI.
-  destruct (start_on_first_idle_inv _ _ _ _ ci_disps0 E) as [HD Hp].
-  split; [|reflexivity]. constructor; simpl; auto.
-  rewrite <- Hp. rewrite ci_started0. rewrite Permutation_app_comm. simpl.
-  apply Permutation_middle.
+  induction b; intros a l; simpl; auto. destruct l; simpl; [destruct a; reflexivity|apply IHb].
 Qed.
 
-Lemma cp_tick_inv : forall s s' p, CPInv s -> cp_tick s = (s', p) -> crashed (sh s') = false -> CPInv s'.
+Lemma enum_from_nil_any : forall lid a b, enum_from lid a [] = enum_from lid b [].
+Proof. reflexivity. Qed.
+
+Lemma enum_from_skipn_chunks : forall per m l lid idx,
+  length l <= m * per ->
+  flat_map (fun i => enum_from lid (idx + N.of_nat (i * per))%N (firstn per (skipn (i * per) l))) (seq 0 m) =
+  enum_from lid idx l.
 Proof.
-  intros s s' p HI H Hc. unfold cp_tick in H.
-  destruct (crashed (sh s)); [inversion H; subst; auto|].
-  destruct (tick_disps (cfg s) (sh s) (disps s)) as [[sh1 ds1] p1] eqn:E1.
-  destruct (crashed sh1) eqn:Ec1.
-  { inversion H; subst. simpl in Hc. congruence. }
-  destruct HI.
-  destruct (tick_disps_inv _ _ _ _ _ _ ci_disps0 E1 Ec1) as [HD [fs [Hfs [Hh [Ho Hp]]]]].
-  assert (HI1 : CPInv (s <| sh := sh1 |> <| disps := ds1 |>)).
-  { constructor; simpl; auto.
-    - rewrite Hh. apply Forall_app; auto.
-    - rewrite Hh, map_app, <- app_assoc. rewrite ci_started0.
-      apply Permutation_app_head. exact Hp.
-    - rewrite Ho, Hh, map_app, app_assoc, ci_rsps0. reflexivity. }
-  destruct (handle_launch _) as [s2 p2] eqn:E2 in H.
-  destruct (handle_launch s2) as [s3 p3] eqn:E3.
-  inversion H; subst; clear H.
-  destruct (handle_launch_inv _ _ _ HI1 E2) as [HI2 _].
-  destruct (handle_launch_inv _ _ _ HI2 E3) as [HI3 _]. exact HI3.
+  intros per m. induction m as [|m IH]; intros l lid idx Hl.
+  - simpl in *. destruct l; [reflexivity|simpl in Hl; lia].
+  - change (seq 0 (S m)) with (0 :: seq 1 m). rewrite <- seq_shift. cbn [flat_map].
+    rewrite flat_map_map_S.
+    assert (E : enum_from lid idx l = enum_from lid idx (firstn per l) ++
+                  enum_from lid (idx + N.of_nat (length (firstn per l)))%N (skipn per l)).
+    { rewrite <- enum_from_app, firstn_skipn. reflexivity. }
+    rewrite E. f_equal.
+    + simpl. f_equal. lia.
+    + rewrite <- (IH (skipn per l) lid (idx + N.of_nat (length (firstn per l)))%N).
+      2: { rewrite skipn_length. lia. }
+      apply flat_map_ext. intros i.
+      replace (skipn (S i * per) l) with (skipn (i * per) (skipn per l)).
+      2: { rewrite skipn_skipn'. f_equal; try lia. }
+      destruct (Nat.le_gt_cases per (length l)) as [Hle|Hgt].
+      * rewrite firstn_length_le by lia. f_equal. lia.
+      * rewrite (skipn_all2 l) by lia. rewrite skipn_nil, firstn_nil. reflexivity.
 Qed.
 
-Lemma step_inv : forall s e, CPInv s -> crashed (sh (fst (step s e))) = false -> CPInv (fst (step s e)).
+Lemma combine_map_repeat : forall A B C (f : A -> B) (y : C) l,
+  combine (map f l) (repeat y (length l)) = map (fun i => (f i, y)) l.
+Proof. induction l; simpl; auto. f_equal. exact IHl. Qed.
+
+Lemma start_pending : forall c ncu d l,
+  (is_partition (c_alg c) = true -> 0 < ncu) ->
+  (is_partition (c_alg c) = false -> a_cur d = None) ->
+  gridrel (c_alg c) (grid_of l) (alg_pending (c_alg c) (start_dispatching c ncu d l)).
 Proof.
-  intros s e HI Hc. unfold step in *. destruct (crashed (sh s)) eqn:Ecs; [exact HI|].
-  destruct e.
-  - destruct (length (drv_in s) <? c_cap (cfg s)); simpl; auto.
-    destruct HI. constructor; simpl; auto.
-  - destruct (length (cu_in (sh s)) <? c_cap (cfg s)); simpl; auto.
-    destruct HI. constructor; simpl; auto.
-  - destruct (cp_tick s) as [s' p] eqn:E. simpl in *. eapply cp_tick_inv; eauto.
-  - destruct (cu_out (sh s)); simpl; auto. destruct HI. constructor; simpl; auto.
-  - destruct (drv_out (sh s)) as [|m r] eqn:Eo; simpl; auto. destruct HI. constructor; simpl; auto.
-    rewrite <- ci_rsps0, Eo, <- app_assoc. reflexivity.
+  intros c ncu d l Hn Ha. unfold gridrel, start_dispatching, alg_start, alg_pending.
+  destruct (c_alg c) eqn:E; simpl in *.
+  - rewrite (Ha eq_refl). reflexivity.
+  - rewrite (Ha eq_refl). reflexivity.
+  - specialize (Hn eq_refl). unfold part_pending. simpl.
+    set (per := per_partition (length (lr_wgs l)) ncu).
+    assert (Hz : combine (map (fun i => mkPart (skipn (i * per) (lr_wgs l)) (N.of_nat (i * per)) 0) (seq 0 ncu))
+                         (repeat (@None kd) ncu) =
+                 map (fun i => (mkPart (skipn (i * per) (lr_wgs l)) (N.of_nat (i * per)) 0, None)) (seq 0 ncu)).
+    { rewrite <- (seq_length ncu 0) at 2. apply combine_map_repeat. }
+    setoid_rewrite Hz. rewrite flat_map_concat_map, map_map, <- flat_map_concat_map.
+    unfold part_todo. cbn [fst snd opt_list length app pt_idx pt_disp pt_rest].
+    unfold grid_of. rewrite <- (enum_from_skipn_chunks per ncu (lr_wgs l) (lr_id l) 0%N).
+    + apply Permutation_refl'. apply flat_map_ext. intros i.
+      replace (per - (0 + 0)) with per by lia. f_equal; try lia.
+    + unfold per, per_partition. destruct (length (lr_wgs l)) as [|m] eqn:El; [lia|].
+      pose proof (Nat.div_mod m ncu ltac:(lia)) as Hdm.
+      pose proof (Nat.mod_upper_bound m ncu ltac:(lia)). nia.
 Qed.
 
-Lemma init_DInv : DInv init_disp.
-Proof. unfold DInv, cur_ok, init_disp; simpl. repeat split; auto. Qed.
+Lemma start_DInv : forall c ncu d l,
+  (is_partition (c_alg c) = true -> 0 < ncu) ->
+  DInv (c_alg c) d -> dispatching d = None -> DInv (c_alg c) (start_dispatching c ncu d l).
+Proof.
+  intros c ncu d l Hn [Hcur [Hsent [Hcnt Hd]]] El. rewrite El in Hd. destruct Hd as [Hw [Hi [Hs Hp]]].
+  unfold cur_ok in Hcur. rewrite Hw in Hcur. destruct (g_cur d) eqn:Eg; [tauto|].
+  assert (Ha : is_partition (c_alg c) = false -> a_cur d = None).
+  { intros Hf. unfold alg_pending in Hp. destruct (c_alg c); try discriminate;
+      destruct (a_cur d); simpl in Hp; congruence. }
+  pose proof (start_pending c ncu d l Hn Ha) as Hg.
+  unfold DInv, cur_ok, placed.
+  assert (E1 : cur_wg (start_dispatching c ncu d l) = None).
+  { unfold start_dispatching, alg_start. destruct (c_alg c); simpl; auto. }
+  assert (E2 : g_cur (start_dispatching c ncu d l) = None).
+  { unfold start_dispatching, alg_start. destruct (c_alg c); simpl; auto. }
+  assert (E3 : g_sent (start_dispatching c ncu d l) = []) by reflexivity.
+  assert (E4 : inflight (start_dispatching c ncu d l) = []).
+  { unfold start_dispatching, alg_start. destruct (c_alg c); simpl; auto. }
+  assert (E5 : dispatching (start_dispatching c ncu d l) = Some l) by reflexivity.
+  assert (E6 : n_disp (start_dispatching c ncu d l) = 0%N /\ n_comp (start_dispatching c ncu d l) = 0%N) by (split; reflexivity).
+  assert (E7 : a_ndisp (start_dispatching c ncu d l) = 0%N /\
+               a_numwg (start_dispatching c ncu d l) = N.of_nat (length (lr_wgs l))).
+  { unfold start_dispatching, alg_start. destruct (c_alg c); simpl; auto. }
+  destruct E6 as [E6 E6']. destruct E7 as [E7 E7'].
+  rewrite E1, E2, E3, E4, E5, E6, E6', E7, E7'. simpl.
+  split; auto. split; [constructor|]. split; [lia|]. split; [exact Hg|]. auto.
+Qed.
+
+Lemma cpstep_CPInv : forall s s', cpstep s s' -> CPInv s -> CPInv s' /\ cfg s' = cfg s.
+Proof.
+  intros s s' H HI. destruct HI as [HD HH HS HR]. destruct H.
+  - (* a step of one dispatcher *)
+    inversion H as [s0 s0' ds1 d d' ds2 Hst]; subst.
+    match goal with E : _ ++ _ :: _ = disps s |- _ => rewrite <- E in *; clear E end.
+    apply Forall_app in HD. destruct HD as [HD1 HD2]. inversion HD2 as [|? ? HDd HD3]; subst.
+    pose proof (dstep_DInv _ _ _ Hst HDd) as HDd'. pose proof (dstep_effect _ _ _ Hst HDd) as Heff. simpl in *.
+    split; [|reflexivity]. constructor; simpl.
+    + apply Forall_app. split; auto.
+    + destruct Heff as [[Eh _]|[l [f [_ [_ [_ [Hf [Eh _]]]]]]]]; rewrite Eh; auto.
+      apply Forall_app. split; auto.
+    + rewrite !running_app in *. simpl in *.
+      destruct Heff as [[Eh [_ Ed]]|[l [f [Ed1 [Ed2 [Ef [_ [Eh _]]]]]]]].
+      * rewrite Eh, Ed. exact HS.
+      * rewrite Eh, Ed2, map_app. rewrite Ed1 in HS. simpl in *. rewrite Ef.
+        rewrite HS. rewrite <- !app_assoc. apply Permutation_app_head. simpl.
+        apply Permutation_sym. apply Permutation_middle.
+    + destruct Heff as [[Eh [Eo _]]|[l [f [_ [_ [Ef [_ [Eh Eo]]]]]]]].
+      * rewrite Eh, Eo. exact HR.
+      * rewrite Eh, Eo, map_app, app_assoc, HR. simpl. rewrite Ef. reflexivity.
+  - (* a launch starts *)
+    split; [|reflexivity]. rewrite H1 in *.
+    apply Forall_app in HD. destruct HD as [HD1 HD2]. inversion HD2 as [|? ? HDd HD3]; subst.
+    constructor; simpl; auto.
+    + apply Forall_app. split; auto. constructor; auto. apply start_DInv; auto.
+    + rewrite !running_app in *. simpl in *. rewrite H2 in HS. simpl in HS.
+      rewrite HS. rewrite <- !app_assoc. apply Permutation_app_head.
+      rewrite app_assoc. rewrite Permutation_app_comm. simpl. apply Permutation_middle.
+  - split; [|reflexivity]. constructor; simpl; auto.
+  - split; [|reflexivity]. constructor; simpl; auto.
+  - split; [|reflexivity]. constructor; simpl; auto.
+  - split; [|reflexivity]. constructor; simpl; auto.
+    rewrite <- HR, H, <- app_assoc. reflexivity.
+Qed.
+
+Lemma cpsteps_CPInv : forall s s', cpsteps s s' -> CPInv s -> CPInv s' /\ cfg s' = cfg s.
+Proof.
+  induction 1; intros HI; [auto|].
+  destruct (cpstep_CPInv _ _ H HI) as [HI1 E1]. destruct (IHcpsteps HI1) as [HI2 E2].
+  split; auto. congruence.
+Qed.
+
+Lemma init_DInv : forall alg, DInv alg init_disp.
+Proof. intros alg. unfold DInv, cur_ok, placed, init_disp; simpl. destruct alg; repeat split; auto. Qed.
 
 Lemma init_cp_inv : forall c cus n, CPInv (init_cp c cus n).
 Proof.
@@ -454,17 +313,38 @@ Proof.
   - unfold running. induction n; simpl; auto.
 Qed.
 
+Lemma init_CInt : forall c cus n, CInt (init_cp c cus n).
+Proof.
+  intros. unfold CInt. simpl. apply Forall_forall. intros d Hd. apply repeat_spec in Hd. subst.
+  split.
+  - unfold AInt, init_disp. destruct (c_alg c); simpl; auto.
+  - split; simpl; [constructor|tauto].
+Qed.
+
 Lemma crashed_sticky : forall evs s, crashed (sh s) = true -> crashed (sh (run s evs)) = true.
 Proof.
   induction evs; intros s H; simpl; auto. apply IHevs. unfold step. rewrite H. simpl. exact H.
 Qed.
 
-Lemma run_inv : forall evs s, CPInv s -> crashed (sh (run s evs)) = false -> CPInv (run s evs).
+(** every run is a sequence of small steps, as long as it does not panic *)
+Lemma run_refines : forall evs s,
+  crashed (sh s) = false -> CInt s -> crashed (sh (run s evs)) = false ->
+  cpsteps s (run s evs) /\ CInt (run s evs).
 Proof.
-  induction evs as [|e evs IH]; intros s HI Hc; simpl in *; auto.
-  apply IH; auto. apply step_inv; auto.
-  destruct (crashed (sh (fst (step s e)))) eqn:E; auto.
-  rewrite (crashed_sticky evs _ E) in Hc. discriminate.
+  induction evs as [|e evs IH]; intros s Hc HI Hcr; simpl in *.
+  - split; [constructor|auto].
+  - destruct (step_ref s e Hc HI) as [x [Hx Hr]].
+    destruct Hr as [[Hc1 [-> [HI1 _]]]|[Hc1 _]].
+    + destruct (IH _ Hc1 HI1 Hcr) as [H1 H2]. split; auto. eapply cpsteps_trans; eauto.
+    + rewrite (crashed_sticky evs _ Hc1) in Hcr. discriminate.
+Qed.
+
+Lemma run_inv : forall c cus n evs,
+  crashed (sh (run (init_cp c cus n) evs)) = false -> CPInv (run (init_cp c cus n) evs).
+Proof.
+  intros c cus n evs Hcr.
+  destruct (run_refines evs (init_cp c cus n) eq_refl (init_CInt c cus n) Hcr) as [Hs _].
+  apply (cpsteps_CPInv _ _ Hs (init_cp_inv c cus n)).
 Qed.
 
 (** * The shared pool: every CU keeps the resource invariant *)
@@ -473,8 +353,29 @@ Definition PoolInv (cfgs : list cucfg) (p : list cu) : Prop := Forall2 Inv cfgs 
 
 Definition dem_ok (dm : demand) : Prop := 1 <= d_nwf dm.
 Definition launch_ok (l : launch) : Prop := Forall dem_ok (lr_wgs l).
-Definition DemOK (d : disp) : Prop :=
-  match a_cur d with Some (_, dm) => dem_ok dm | None => True end /\ Forall dem_ok (a_rest d).
+(** every demand the algorithm state still holds *)
+Definition alg_dems (d : disp) : list demand :=
+  map snd (opt_list (a_cur d)) ++ a_rest d ++ map snd (flat_map opt_list (p_cur d)) ++ flat_map pt_rest (p_parts d).
+Definition DemOK (d : disp) : Prop := Forall dem_ok (alg_dems d) /\ length (p_cur d) = length (p_parts d).
+
+Lemma Forall_incl : forall A (P : A -> Prop) l l', Forall P l -> incl l' l -> Forall P l'.
+Proof. intros A P l l' H Hi. rewrite Forall_forall in *. auto. Qed.
+
+Lemma in_set_nth : forall A i (y : A) l x, In x (set_nth i y l) -> x = y \/ In x l.
+Proof.
+  intros A i y l x H. apply In_nth_error in H. destruct H as [j Hj].
+  destruct (Nat.eq_dec i j) as [->|Hne].
+  - rewrite set_nth_same in Hj. destruct (nth_error l j); simpl in Hj; [inversion Hj; auto|discriminate].
+  - rewrite set_nth_other in Hj by auto. right. eapply nth_error_In; eauto.
+Qed.
+
+Lemma in_flat_map_set_nth : forall A B (f : A -> list B) i y l z,
+  In z (flat_map f (set_nth i y l)) -> In z (f y) \/ In z (flat_map f l).
+Proof.
+  intros A B f i y l z H. apply in_flat_map in H. destruct H as [x [Hx Hz]].
+  apply in_set_nth in Hx. destruct Hx as [->|Hx]; auto. right. apply in_flat_map. eauto.
+Qed.
+
 
 Lemma pool_set_nth : forall cfgs p i c cu',
   PoolInv cfgs p -> nth_error cfgs i = Some c -> Inv c cu' -> PoolInv cfgs (set_nth i cu' p).
@@ -492,12 +393,6 @@ Proof.
   unfold PoolInv. intros cfgs p i H. revert i. induction H; intros i Hi; simpl in Hi; [lia|].
   destruct i as [|i]; simpl; eauto. apply IHForall2. lia.
 Qed.
-
-Lemma set_nth_length : forall A i (x : A) l, length (set_nth i x l) = length l.
-Proof. intros. apply upd_length. Qed.
-
-Lemma set_nth_nil : forall A i (x : A), set_nth i x [] = [].
-Proof. intros. unfold set_nth, upd. rewrite firstn_nil, skipn_nil. reflexivity. Qed.
 
 Lemma rr_scan_pool : forall cfgs fuel i p start k dm p' r,
   PoolInv cfgs p -> dem_ok dm -> rr_scan fuel i p start k dm = Some (p', r) -> PoolInv cfgs p'.
@@ -519,7 +414,7 @@ Qed.
 Lemma rr_next_pool : forall cfgs alg p d p' d' r,
   PoolInv cfgs p -> DemOK d -> rr_next alg p d = Some (p', d', r) -> PoolInv cfgs p' /\ DemOK d'.
 Proof.
-  intros cfgs alg p d p' d' r HP [Ha Hr] H. unfold rr_next in H.
+  intros cfgs alg p d p' d' r HP [HD Hsh] H. unfold rr_next in H.
   assert (Hf : forall df, (match a_cur d with
                     | Some _ => Some d
                     | None => match a_rest d with
@@ -527,17 +422,143 @@ Proof.
                               | dm :: r => Some (d <| a_cur := Some ((a_lid d, a_idx d), dm) |> <| a_rest := r |>
                                                    <| a_idx := (a_idx d + 1)%N |>)
                               end
-                    end) = Some df -> DemOK df).
+                    end) = Some df -> alg_dems df = alg_dems d /\ p_cur df = p_cur d /\ p_parts df = p_parts d).
   { intros df E. destruct (a_cur d) as [[k dm]|] eqn:Ea.
-    - inversion E; subst. split; auto. rewrite Ea. auto.
+    - inversion E; subst. auto.
     - destruct (a_rest d) as [|dm r0] eqn:Er; [discriminate|]. inversion E; subst.
-      inversion Hr; subst. split; simpl; auto. }
+      unfold alg_dems. simpl. rewrite Ea, Er. auto. }
   match type of H with (match ?X with _ => _ end) = _ => destruct X as [df|] eqn:Edf end; [|discriminate].
-  specialize (Hf df eq_refl). destruct Hf as [Hfa Hfr].
+  destruct (Hf df eq_refl) as [Hf1 [Hf2 Hf3]].
+  assert (HDf : Forall dem_ok (alg_dems df)) by (rewrite Hf1; exact HD).
   destruct (a_cur df) as [[k dm]|] eqn:Ea; [|discriminate].
+  assert (Hdm : dem_ok dm).
+  { unfold alg_dems in HDf. rewrite Ea in HDf. simpl in HDf. inversion HDf; auto. }
   destruct (rr_scan _ _ _ _ _ _) as [[p1 [pl|]]|] eqn:Es; [| |discriminate].
-  - inversion H; subst. split; [eapply rr_scan_pool; eauto|]. split; simpl; auto.
-  - inversion H; subst. split; [eapply rr_scan_pool; eauto|]. split; auto. rewrite Ea. auto.
+  - inversion H; subst. split; [eapply rr_scan_pool; eauto|]. split; [|simpl; congruence].
+    eapply Forall_incl; [exact HDf|]. unfold alg_dems. simpl. rewrite Ea. simpl. intros x Hx. right. exact Hx.
+  - inversion H; subst. split; [eapply rr_scan_pool; eauto|]. split; [exact HDf|congruence].
+Qed.
+
+Lemma first_parked_in : forall l i x j, first_parked l i = Some (x, j) -> In (Some x) l.
+Proof.
+  induction l as [|[y|] l IH]; intros i x j H; simpl in H; [discriminate| |].
+  - inversion H; subst. left; auto.
+  - right. eauto.
+Qed.
+
+Lemma dems_cur_in : forall d k dm, In (Some (k, dm)) (p_cur d) -> In dm (alg_dems d).
+Proof.
+  intros d k dm H. unfold alg_dems. apply in_or_app. right. apply in_or_app. right.
+  apply in_or_app. left. apply in_map_iff. exists (k, dm). split; auto.
+  apply in_flat_map. exists (Some (k, dm)). split; auto. left. auto.
+Qed.
+
+Lemma part_fetch_dems : forall d pi d1 r,
+  part_fetch d pi = (d1, r) -> DemOK d -> pi < length (p_parts d) ->
+  DemOK d1 /\ length (p_parts d1) = length (p_parts d) /\ p_next d1 = p_next d /\
+  match r with Some ((k, dm), from) => dem_ok dm | None => True end.
+Proof.
+  intros d pi d1 r H [HD Hsh] Hpi. unfold part_fetch in H. rewrite Forall_forall in HD.
+  destruct (p_per d <=? pt_disp (nth pi (p_parts d) dummy_part)).
+  - inversion H; subst d1 r. split; [split; auto; apply Forall_forall; auto|]. split; auto. split; auto.
+    destruct (first_parked (p_cur d) 0) as [[[k dm] from]|] eqn:E; auto.
+    apply HD. eapply dems_cur_in. eapply first_parked_in; eauto.
+  - destruct (nth pi (p_cur d) None) as [[k dm]|] eqn:Ec.
+    + inversion H; subst d1 r. split; [split; auto; apply Forall_forall; auto|]. split; auto. split; auto.
+      apply HD. apply (dems_cur_in d k dm). rewrite <- Ec. apply nth_In. lia.
+    + destruct (pt_rest (nth pi (p_parts d) dummy_part)) as [|dm r0] eqn:Er.
+      * inversion H; subst d1 r. split; [split; auto; apply Forall_forall; auto|]. auto.
+      * inversion H; subst d1 r; clear H.
+        assert (Hpt : In (nth pi (p_parts d) dummy_part) (p_parts d)) by (apply nth_In; exact Hpi).
+        assert (Hdm : forall x, In x (dm :: r0) -> In x (flat_map pt_rest (p_parts d))).
+        { intros x Hx. apply in_flat_map. exists (nth pi (p_parts d) dummy_part). split; auto. rewrite Er. exact Hx. }
+        assert (Hok : dem_ok dm).
+        { apply HD. unfold alg_dems. apply in_or_app. right. apply in_or_app. right. apply in_or_app. right.
+          apply Hdm. left. auto. }
+        split; [|simpl; rewrite set_nth_length; auto].
+        split; [|simpl; rewrite !set_nth_length; auto].
+        apply Forall_forall. unfold alg_dems. simpl. intros x Hx.
+        apply in_app_or in Hx. destruct Hx as [Hx|Hx]; [apply HD; unfold alg_dems; apply in_or_app; auto|].
+        apply in_app_or in Hx. destruct Hx as [Hx|Hx];
+          [apply HD; unfold alg_dems; apply in_or_app; right; apply in_or_app; auto|].
+        apply in_app_or in Hx. destruct Hx as [Hx|Hx].
+        -- apply in_map_iff in Hx. destruct Hx as [[k0 dm0] [E0 Hx]]. simpl in E0. subst dm0.
+           apply in_flat_map_set_nth in Hx. destruct Hx as [Hx|Hx].
+           ++ simpl in Hx. destruct Hx as [Hx|[]]. inversion Hx; subst. exact Hok.
+           ++ apply HD. unfold alg_dems. apply in_or_app. right. apply in_or_app. right. apply in_or_app. left.
+              apply in_map_iff. exists (k0, x). auto.
+        -- apply in_flat_map_set_nth in Hx. destruct Hx as [Hx|Hx].
+           ++ simpl in Hx. apply HD. unfold alg_dems. apply in_or_app. right. apply in_or_app. right.
+              apply in_or_app. right. apply Hdm. right. exact Hx.
+           ++ apply HD. unfold alg_dems. apply in_or_app. right. apply in_or_app. right. apply in_or_app. right.
+              exact Hx.
+Qed.
+
+Lemma part_scan_pool : forall cfgs fuel index p d p' d' r,
+  PoolInv cfgs p -> DemOK d -> (0 < fuel -> 0 < length (p_parts d)) ->
+  part_scan fuel index p d = Some (p', d', r) -> PoolInv cfgs p' /\ DemOK d'.
+Proof.
+  induction fuel; intros index p d p' d' r HP HD Hf H; simpl in H.
+  - inversion H; subst. auto.
+  - assert (Hp : 0 < length (p_parts d)) by (apply Hf; lia).
+    assert (Hi : (index + p_next d) mod length (p_parts d) < length (p_parts d)) by (apply Nat.mod_upper_bound; lia).
+    set (i := (index + p_next d) mod length (p_parts d)) in *.
+    destruct (part_fetch d i) as [d1 r1] eqn:Ef.
+    destruct (part_fetch_dems _ _ _ _ Ef HD Hi) as [HD1 [Hl1 [Hn1 Hr1]]].
+    assert (Hf1 : 0 < fuel -> 0 < length (p_parts d1)) by (intros; lia).
+    destruct r1 as [[[k dm] from]|]; [|eapply IHfuel; eauto].
+    destruct (Nat.lt_ge_cases i (length p)) as [Hlt|Hge].
+    + destruct (pool_nth _ _ _ HP Hlt) as [c0 [Hc0 HI0]].
+      destruct (reserve (nth i p dummy_cu) k dm) as [|c' [locs|]] eqn:Er; [discriminate| |].
+      * inversion H; subst. split; [eapply pool_set_nth; eauto; eapply reserve_inv; eauto|].
+        destruct HD1 as [HDa HDb]. split; [|simpl; rewrite !set_nth_length; auto].
+        rewrite Forall_forall in *. unfold alg_dems in *. simpl. intros x Hx.
+        apply in_app_or in Hx. destruct Hx as [Hx|Hx]; [apply HDa; apply in_or_app; auto|].
+        apply in_app_or in Hx. destruct Hx as [Hx|Hx]; [apply HDa; apply in_or_app; right; apply in_or_app; auto|].
+        apply in_app_or in Hx. destruct Hx as [Hx|Hx].
+        -- apply in_map_iff in Hx. destruct Hx as [[k0 dm0] [E0 Hx]]. simpl in E0. subst dm0.
+           apply in_flat_map_set_nth in Hx. destruct Hx as [[]|Hx].
+           apply HDa. apply in_or_app. right. apply in_or_app. right. apply in_or_app. left.
+           apply in_map_iff. exists (k0, x). auto.
+        -- apply in_flat_map_set_nth in Hx. destruct Hx as [Hx|Hx].
+           ++ simpl in Hx. apply HDa. apply in_or_app. right. apply in_or_app. right. apply in_or_app. right.
+              apply in_flat_map. exists (nth from (p_parts d1) dummy_part). split; auto.
+              destruct (Nat.lt_ge_cases from (length (p_parts d1))); [apply nth_In; auto|].
+              rewrite nth_overflow in Hx by lia. simpl in Hx. tauto.
+           ++ apply HDa. apply in_or_app. right. apply in_or_app. right. apply in_or_app. right. exact Hx.
+      * eapply IHfuel; [| | |exact H]; auto. eapply pool_set_nth; eauto. eapply reserve_inv; eauto.
+    + (* no such CU: the pool is left as it is *)
+      assert (Hs : forall y, set_nth i y p = p).
+      { intros y. unfold set_nth, upd. rewrite firstn_all2 by lia. rewrite skipn_all2 by lia. apply app_nil_r. }
+      destruct (reserve (nth i p dummy_cu) k dm) as [|c' [locs|]] eqn:Er; [discriminate| |].
+      * inversion H; subst. rewrite Hs. split; auto.
+        destruct HD1 as [HDa HDb]. split; [|simpl; rewrite !set_nth_length; auto].
+        rewrite Forall_forall in *. unfold alg_dems in *. simpl. intros x Hx.
+        apply in_app_or in Hx. destruct Hx as [Hx|Hx]; [apply HDa; apply in_or_app; auto|].
+        apply in_app_or in Hx. destruct Hx as [Hx|Hx]; [apply HDa; apply in_or_app; right; apply in_or_app; auto|].
+        apply in_app_or in Hx. destruct Hx as [Hx|Hx].
+        -- apply in_map_iff in Hx. destruct Hx as [[k0 dm0] [E0 Hx]]. simpl in E0. subst dm0.
+           apply in_flat_map_set_nth in Hx. destruct Hx as [[]|Hx].
+           apply HDa. apply in_or_app. right. apply in_or_app. right. apply in_or_app. left.
+           apply in_map_iff. exists (k0, x). auto.
+        -- apply in_flat_map_set_nth in Hx. destruct Hx as [Hx|Hx].
+           ++ simpl in Hx. apply HDa. apply in_or_app. right. apply in_or_app. right. apply in_or_app. right.
+              apply in_flat_map. exists (nth from (p_parts d1) dummy_part). split; auto.
+              destruct (Nat.lt_ge_cases from (length (p_parts d1))); [apply nth_In; auto|].
+              rewrite nth_overflow in Hx by lia. simpl in Hx. tauto.
+           ++ apply HDa. apply in_or_app. right. apply in_or_app. right. apply in_or_app. right. exact Hx.
+      * rewrite Hs in H. eapply IHfuel; [| | |exact H]; auto.
+Qed.
+
+Lemma alg_next_pool : forall cfgs alg p d p' d' r,
+  PoolInv cfgs p -> DemOK d -> alg_next alg p d = Some (p', d', r) -> PoolInv cfgs p' /\ DemOK d'.
+Proof.
+  intros cfgs alg p d p' d' r HP HD H. unfold alg_next in H. destruct alg.
+  - eapply rr_next_pool; eauto.
+  - eapply rr_next_pool; eauto.
+  - unfold part_next in H. destruct (a_numwg d <=? a_ndisp d)%N.
+    + inversion H; subst. auto.
+    + eapply part_scan_pool; eauto.
 Qed.
 
 Lemma dispatch_next_pool : forall cfgs c s d s' d' pr,
@@ -550,9 +571,9 @@ Proof.
   assert (H1 : PoolInv cfgs (pool s1) /\ DemOK d1).
   { destruct (cur_wg d); [inversion Est; subst; auto|].
     destruct (negb (has_next d)); [discriminate|].
-    destruct (rr_next (c_alg c) (pool s) d) as [[[p' df] [pl|]]|] eqn:En.
-    - inversion Est; subst. destruct (rr_next_pool _ _ _ _ _ _ _ HP HD En). split; simpl; auto.
-    - inversion Est; subst. destruct (rr_next_pool _ _ _ _ _ _ _ HP HD En). split; simpl; auto.
+    destruct (alg_next (c_alg c) (pool s) d) as [[[p' df] [pl|]]|] eqn:En.
+    - inversion Est; subst. destruct (alg_next_pool _ _ _ _ _ _ _ HP HD En) as [Hq1 Hq2]. split; simpl; auto.
+    - inversion Est; subst. destruct (alg_next_pool _ _ _ _ _ _ _ HP HD En) as [Hq1 Hq2]. split; simpl; auto.
     - inversion Est; subst. split; simpl; auto. }
   destruct H1 as [HP1 HD1].
   destruct (crashed s1); [inversion H; subst; auto|].
@@ -645,24 +666,49 @@ Record PInv (cfgs : list cucfg) (s : cp) : Prop := mkPInv {
   pi_in : Forall launch_ok (drv_in s)
 }.
 
-Lemma start_on_first_idle_dem : forall c ds l ds',
-  Forall DemOK ds -> launch_ok l -> start_on_first_idle c ds l = Some ds' -> Forall DemOK ds'.
+Lemma skipn_In_c09 : forall A n (l : list A) x, In x (skipn n l) -> In x l.
+Proof. induction n; intros l x H; simpl in *; auto. destruct l; [inversion H|right; auto]. Qed.
+
+Lemma start_DemOK : forall c ncu d l, DemOK d -> launch_ok l -> DemOK (start_dispatching c ncu d l).
+Proof.
+  intros c ncu d l [HD Hsh] Hl. unfold DemOK, start_dispatching, alg_start, alg_dems in *.
+  rewrite Forall_forall in *. unfold launch_ok in Hl. rewrite Forall_forall in Hl.
+  destruct (c_alg c); simpl.
+  - split; auto. intros x Hx. apply in_app_or in Hx. destruct Hx as [Hx|Hx]; [apply HD; apply in_or_app; auto|].
+    apply in_app_or in Hx. destruct Hx as [Hx|Hx]; [auto|]. apply HD. apply in_or_app. right. apply in_or_app. auto.
+  - split; auto. intros x Hx. apply in_app_or in Hx. destruct Hx as [Hx|Hx]; [apply HD; apply in_or_app; auto|].
+    apply in_app_or in Hx. destruct Hx as [Hx|Hx]; [auto|]. apply HD. apply in_or_app. right. apply in_or_app. auto.
+  - split; [|rewrite repeat_length, map_length, seq_length; reflexivity].
+    intros x Hx. apply in_app_or in Hx. destruct Hx as [Hx|Hx]; [apply HD; apply in_or_app; auto|].
+    apply in_app_or in Hx. destruct Hx as [Hx|Hx]; [apply HD; apply in_or_app; right; apply in_or_app; auto|].
+    apply in_app_or in Hx. destruct Hx as [Hx|Hx].
+    + exfalso. apply in_map_iff in Hx. destruct Hx as [y [_ Hy]]. apply in_flat_map in Hy.
+      destruct Hy as [o [Ho Hy]]. apply repeat_spec in Ho. subst. simpl in Hy. exact Hy.
+    + apply in_flat_map in Hx. destruct Hx as [pt [Hpt Hx]]. apply in_map_iff in Hpt.
+      destruct Hpt as [i [<- _]]. simpl in Hx. apply Hl. eapply skipn_In_c09; eauto.
+Qed.
+
+Lemma start_on_first_idle_dem : forall c ncu ds l ds',
+  Forall DemOK ds -> launch_ok l -> start_on_first_idle c ncu ds l = Some ds' -> Forall DemOK ds'.
 Proof.
   induction ds as [|d r IH]; intros l ds' HD Hl H; simpl in H; [discriminate|].
   inversion HD as [|? ? Hd Hr]; subst.
   destruct (dispatching d).
-  - destruct (start_on_first_idle c r l) eqn:E; [|discriminate]. inversion H; subst.
+  - destruct (start_on_first_idle c ncu r l) eqn:E; [|discriminate]. inversion H; subst.
     constructor; eauto.
-  - inversion H; subst. constructor; auto. destruct Hd as [Ha _]. split; simpl; auto.
+  - inversion H; subst. constructor; auto. apply start_DemOK; auto.
 Qed.
 
 Lemma handle_launch_pool : forall cfgs s s' p, PInv cfgs s -> handle_launch s = (s', p) -> PInv cfgs s'.
 Proof.
   intros cfgs s s' p [HP HD HL] H. unfold handle_launch in H.
+  destruct (crashed (sh s)); [inversion H; subst; constructor; auto|].
   destruct (drv_in s) as [|l rest] eqn:Ei; [inversion H; subst; constructor; auto; rewrite Ei; auto|].
   inversion HL; subst.
-  destruct (start_on_first_idle (cfg s) (disps s) l) as [ds|] eqn:E.
-  - inversion H; subst. constructor; simpl; auto. eapply start_on_first_idle_dem; eauto.
+  destruct (start_on_first_idle (cfg s) (length (pool (sh s))) (disps s) l) as [ds|] eqn:E.
+  - destruct (_ && _).
+    + inversion H; subst. constructor; simpl; auto. rewrite Ei; auto.
+    + inversion H; subst. constructor; simpl; auto. eapply start_on_first_idle_dem; eauto.
   - inversion H; subst. constructor; auto. rewrite Ei; auto.
 Qed.
 
@@ -698,6 +744,14 @@ Lemma init_pool : forall c cus n, PInv cus (init_cp c cus n).
 Proof.
   intros. constructor; simpl.
   - unfold PoolInv. induction cus; simpl; constructor; auto. apply init_inv.
-  - apply Forall_forall. intros d Hd. apply repeat_spec in Hd. subst. split; simpl; auto.
+  - apply Forall_forall. intros d Hd. apply repeat_spec in Hd. subst. split; [constructor|reflexivity].
   - constructor.
+Qed.
+
+Lemma run_cfg : forall c cus n evs,
+  crashed (sh (run (init_cp c cus n) evs)) = false -> cfg (run (init_cp c cus n) evs) = c.
+Proof.
+  intros c cus n evs Hcr.
+  destruct (run_refines evs (init_cp c cus n) eq_refl (init_CInt c cus n) Hcr) as [Hs _].
+  destruct (cpsteps_CPInv _ _ Hs (init_cp_inv c cus n)) as [_ E]. exact E.
 Qed.
